@@ -1,0 +1,59 @@
+// SPDX-FileCopyrightText: 2026 The Pion community <https://pion.ly>
+// SPDX-License-Identifier: MIT
+
+//go:build verif
+
+// Contracts (comment-only) for property C19: address rewrite rules map
+// addresses with the documented precedence.
+
+package ice
+
+// fam(r, v4): the per-family mapping of rule r; M: rule r passes the
+// interface / CIDR / family filters; X: it has an explicit entry for the local
+// address; C: it is a catch-all; S: documented specificity
+// (interface+CIDR 3 > interface 2 > CIDR 1 > global 0).
+//@ spec macro rwValid(r *addressRewriteRuleMapping, v4 bool) = ite(v4, r.ipv4Mapping.valid, r.ipv6Mapping.valid)
+//@ spec macro rwM(r *addressRewriteRuleMapping, ip []byte, v4 bool, iface string) = (r.rule.Iface == "" || r.rule.Iface == iface) && (r.cidr == nil || cidrContains(r.cidr, ip.base, ip.off, len(ip))) && rwValid(r, v4)
+//@ spec macro rwX(r *addressRewriteRuleMapping, ip []byte, v4 bool) = ite(v4, has(r.ipv4Mapping.ipMap, ipString(ip.base, ip.off, len(ip))), has(r.ipv6Mapping.ipMap, ipString(ip.base, ip.off, len(ip))))
+//@ spec macro rwC(r *addressRewriteRuleMapping, v4 bool) = ite(v4, r.ipv4Mapping.catchAllSet, r.ipv6Mapping.catchAllSet)
+//@ spec macro rwS(r *addressRewriteRuleMapping) = ite(r.rule.Iface != "", ite(r.cidr != nil, 3, 2), ite(r.cidr != nil, 1, 0))
+//@ spec macro rwSole(r *addressRewriteRuleMapping, v4 bool) = ite(v4, r.ipv4Mapping.ipSole.base, r.ipv6Mapping.ipSole.base)
+//@ spec macro rwExplicit(r *addressRewriteRuleMapping, ip []byte, v4 bool) = ite(v4, r.ipv4Mapping.ipMap[ipString(ip.base, ip.off, len(ip))].base, r.ipv6Mapping.ipMap[ipString(ip.base, ip.off, len(ip))].base)
+
+// cloneSrc(b): ghost relation "the slice with backing array b was produced by cloneIPs from the slice with backing array cloneSrc(b)".
+//@ spec func cloneSrc(b int) int
+
+//@ func cloneIPs
+//@   props C19
+//@   ensures empty-is-nil: len(src) == 0 ==> result == nil
+//@   loop 1 invariant cloned != nil && fresh(cloned) && len(cloned) <= rangeindex + 1 && rangeindex < len(src)
+//@   ensures fresh-copy: len(src) > 0 ==> result != nil && fresh(result)
+//@   ensures no-longer: len(result) <= len(src)
+//@   defines len(src) > 0 ==> cloneSrc(result.base) == src.base
+
+//@ func catchAllSpecificity
+//@   props C19
+//@   pure
+//@   ensures documented-order: result == rwS(rule)
+
+//@ func ruleMappingForLookup
+//@   props C19
+//@   pure
+//@   ensures filters: result1 == rwM(rule, locIP, isLocIPv4, iface)
+//@   ensures family: result1 ==> result0 == ite(isLocIPv4, &rule.ipv4Mapping, &rule.ipv6Mapping)
+//@   ensures none: !result1 ==> result0 == nil
+
+//@ func evaluateRewriteRules
+//@   props C19
+//@   ghostvar chosen int = 0 - 1
+//@   site call cloneIPs#2 ghost chosen := rangeindex + 1
+//@   loop 1 invariant bounds: 0 - 1 <= rangeindex && rangeindex < len(rules) || (len(rules) == 0 && rangeindex == 0 - 1)
+//@   loop 1 invariant no-explicit-so-far: forall k int :: 0 <= k && k <= rangeindex ==> !(rwM(rules[k], locIP, isLocIPv4, iface) && rwX(rules[k], locIP, isLocIPv4))
+//@   loop 1 invariant no-catchall-so-far: !hasCatchAll ==> forall k int :: 0 <= k && k <= rangeindex ==> !(rwM(rules[k], locIP, isLocIPv4, iface) && rwC(rules[k], isLocIPv4))
+//@   loop 1 invariant best-so-far: hasCatchAll ==> 0 <= chosen && chosen <= rangeindex && rwM(rules[chosen], locIP, isLocIPv4, iface) && rwC(rules[chosen], isLocIPv4) && bestSpec == rwS(rules[chosen]) && catchAllMode == rules[chosen].mode
+//@   loop 1 invariant best-clone: hasCatchAll ==> (len(catchAll) > 0 ==> cloneSrc(catchAll.base) == rwSole(rules[chosen], isLocIPv4)) && (catchAll == nil) == (ite(isLocIPv4, len(rules[chosen].ipv4Mapping.ipSole), len(rules[chosen].ipv6Mapping.ipSole)) == 0)
+//@   loop 1 invariant best-dominates: hasCatchAll ==> forall k int :: 0 <= k && k <= rangeindex && rwM(rules[k], locIP, isLocIPv4, iface) && rwC(rules[k], isLocIPv4) ==> rwS(rules[k]) < bestSpec || (rwS(rules[k]) == bestSpec && chosen <= k)
+//@   ensures first-explicit-wins: forall j int :: 0 <= j && j < len(rules) && rwM(rules[j], locIP, isLocIPv4, iface) && rwX(rules[j], locIP, isLocIPv4) && (forall k int :: 0 <= k && k < j ==> !(rwM(rules[k], locIP, isLocIPv4, iface) && rwX(rules[k], locIP, isLocIPv4))) ==> matched && mode == rules[j].mode && (len(ips) > 0 ==> cloneSrc(ips.base) == rwExplicit(rules[j], locIP, isLocIPv4))
+//@   ensures most-specific-catchall: forall j int :: 0 <= j && j < len(rules) && (forall k int :: 0 <= k && k < len(rules) ==> !(rwM(rules[k], locIP, isLocIPv4, iface) && rwX(rules[k], locIP, isLocIPv4))) && rwM(rules[j], locIP, isLocIPv4, iface) && rwC(rules[j], isLocIPv4) && (forall k int :: 0 <= k && k < len(rules) && rwM(rules[k], locIP, isLocIPv4, iface) && rwC(rules[k], isLocIPv4) ==> rwS(rules[k]) < rwS(rules[j]) || (rwS(rules[k]) == rwS(rules[j]) && j <= k)) ==> matched && mode == rules[j].mode && (len(ips) > 0 ==> cloneSrc(ips.base) == rwSole(rules[j], isLocIPv4))
+//@   ensures no-match: (forall k int :: 0 <= k && k < len(rules) ==> !(rwM(rules[k], locIP, isLocIPv4, iface) && (rwX(rules[k], locIP, isLocIPv4) || rwC(rules[k], isLocIPv4)))) ==> !matched && ips == nil && mode == 0
+//@   ensures matched-implies-rule: matched ==> exists j int :: 0 <= j && j < len(rules) && rwM(rules[j], locIP, isLocIPv4, iface) && (rwX(rules[j], locIP, isLocIPv4) || rwC(rules[j], isLocIPv4)) && mode == rules[j].mode
